@@ -91,6 +91,7 @@ func genC01(c *Ctx) {
 	}
 	longCases(c, "fasta", 0)
 	boundaryCases(c, "fasta")
+	interleaved(c, "fasta")
 	aliasCases(c, "fasta")
 	retainedMarshal(c, "fasta", func(i int) ([]byte, []byte) {
 		r := c.fastaRec(200)
@@ -200,6 +201,7 @@ func genC02(c *Ctx) {
 	}
 	longCases(c, "fastq", 0)
 	boundaryCases(c, "fastq")
+	interleaved(c, "fastq")
 	aliasCases(c, "fastq")
 	retainedMarshal(c, "fastq", func(i int) ([]byte, []byte) {
 		r := c.fastqRec(60)
@@ -344,6 +346,7 @@ func genC03(c *Ctx) {
 	longCases(c, "samh", 4)
 	boundaryCases(c, "sam")
 	boundaryCases(c, "samh")
+	interleaved(c, "sam")
 	retainedMarshal(c, "sam", func(i int) ([]byte, []byte) {
 		r := c.samRec()
 		r.Seq, r.Qual = string(c.text(40, "")), string(c.text(40, ""))
@@ -470,6 +473,7 @@ func genC04(c *Ctx) {
 	}
 	longCases(c, "bed", 3)
 	boundaryCases(c, "bed")
+	interleaved(c, "bed")
 	retainedMarshal(c, "bed", func(i int) ([]byte, []byte) {
 		r := c.bedRec(6)
 		r.Chrom, r.Name, r.ChromStart, r.ChromEnd, r.Score = string(c.text(8, "#")), string(c.text(20, "")), 100+i, 200+i, 5
@@ -656,6 +660,7 @@ func genC05(c *Ctx) {
 	}
 	longCases(c, "newick", 2)
 	boundaryCases(c, "newick")
+	interleaved(c, "newick")
 	retainedMarshal(c, "newick", func(i int) ([]byte, []byte) {
 		r := c.randTree(5)
 		mt, _ := r.MarshalText()
